@@ -73,6 +73,11 @@ CHECK_CALLS = re.compile(r"::checked_(add|sub|mul|div|rem|shl|shr|pow|next_power
                          r"::is_char_boundary$|::contains_key$|::contains$|::starts_with$|::ends_with$|::get_or$")
 
 
+def _named_field(e):
+    """projection element naming a struct field (not a tuple / enum-payload position)"""
+    return isinstance(e, str) and e.startswith(".") and "::" in e and not e.rsplit("::", 1)[1].isdigit()
+
+
 def int_width(ty):
     ty = ty.replace("&", "").replace("mut ", "").strip()
     return INT_TYPES.get(ty)
@@ -98,6 +103,13 @@ class FnTaint:
         self.roots = defaultdict(set)    # SCALAR local -> root ids
         self.root_desc = []              # id -> description
         self.clean_bounded = set()       # locals produced by clamp/mask against an untrusted-free value
+        self.site_roots = defaultdict(set)   # def location -> roots written there
+        self.site_new = defaultdict(set)     # def location -> roots created there (sources)
+        self.param_roots = defaultdict(set)
+        self._dmemo = {}
+        self._dprog = set()
+        self.tuple_clean = defaultdict(set)  # local holding a (wrapped) tuple -> trusted tuple fields
+        self._cur_loc = None
         self.buf_fields = [re.compile(x) for x in buf_fields]
         self.scalar_fields = [re.compile(x) for x in scalar_fields]
         self.summaries = summaries
@@ -118,6 +130,11 @@ class FnTaint:
         rid = len(self.root_desc)
         self.root_desc.append((desc, width))
         self.roots[l].add(rid)
+        if self._cur_loc is not None:
+            self.site_roots[self._cur_loc].add(rid)
+            self.site_new[self._cur_loc].add(rid)
+        else:
+            self.param_roots[l].add(rid)
         return rid
 
     # ------------------------------------------------------------------
@@ -131,6 +148,16 @@ class FnTaint:
                     if i in self.env_scalar:
                         return "scalar"
                     break
+        if self.summaries is not None:
+            last = None
+            for e in place[1:]:
+                if _named_field(e):
+                    last = e[1:]
+            if last is not None:
+                if last in self.summaries.reg_buf:
+                    return "buf"
+                if last in self.summaries.reg_scalar:
+                    return "scalar"
         for e in place[1:]:
             if isinstance(e, str) and e.startswith("."):
                 k = e[1:]
@@ -145,6 +172,7 @@ class FnTaint:
     def _seed(self):
         fn = self.fn
         for loc, st in fn.iter_locs():
+            self._cur_loc = loc
             if st[0] == "a":
                 dst, rv = st[1], st[2]
                 for o in rv_operands(rv):
@@ -193,7 +221,7 @@ class FnTaint:
         for a in arg_locals:
             s_roots |= self.roots.get(a, set())
         changed = False
-        if last in LEN_CALLS and any_buf and not s_roots:
+        if last in LEN_CALLS:
             return False
         # clamp: result bounded by the untrusted-free argument
         if last in CLAMP_CALLS and len(arg_locals) + sum(1 for a in c["a"] if op_const(a)) >= 2:
@@ -209,10 +237,17 @@ class FnTaint:
                     self.buf.add(dst)
                     changed = True
             if has_int(dty) and last not in LEN_CALLS and not is_bufish(dty):
-                # integer(s) computed from untrusted content
-                if c.get("loc") and self.summaries is not None:
-                    pass
-                if not self.roots.get(dst):
+                src = False
+                if c.get("loc") and self.summaries is not None and self.summaries.fx.has(f):
+                    bp = [i + 1 for i, a in enumerate(c["a"]) if op_local(a) in self.buf]
+                    info = self.summaries.ret_info(f, bp)
+                    src = info["tainted"]
+                    if info["clean_fields"] and not self.tuple_clean.get(dst):
+                        self.tuple_clean[dst] = set(info["clean_fields"])
+                        changed = True
+                elif not c.get("r", True):
+                    src = True      # unresolved trait method fed with untrusted bytes
+                if src and not self.site_new.get(self._cur_loc):
                     self._new_root(dst, "%s(buffer) line %s" % (last, c["ln"]), int_width(dty) or 64)
                     changed = True
         if s_roots:
@@ -228,7 +263,92 @@ class FnTaint:
             if s_roots - self.roots.get(dst, set()):
                 self.roots[dst] |= s_roots
                 changed = True
+            if self._cur_loc is not None:
+                self.site_roots[self._cur_loc] |= s_roots
+        # tuple results: which fields are trusted positions (consumed-byte counts)?
+        if last in ("branch", "unwrap", "expect", "map_err", "ok_or", "ok_or_else", "unwrap_or", "ok",
+                    "from_residual", "unwrap_unchecked", "into") and arg_locals:
+            if self.tuple_clean.get(arg_locals[0]) and not self.tuple_clean.get(dst):
+                self.tuple_clean[dst] = set(self.tuple_clean[arg_locals[0]])
+                changed = True
         return changed
+
+    def _field_root(self, p, line):
+        key = [e for e in p[1:] if _named_field(e)][-1][1:]
+        if not hasattr(self, "_froots"):
+            self._froots = {}
+        if key not in self._froots:
+            rid = len(self.root_desc)
+            self.root_desc.append(("field %s" % key.rsplit("::", 2)[-2] + "." + key.rsplit("::", 1)[-1], 64))
+            self._froots[key] = rid
+        rid = self._froots[key]
+        if self._cur_loc is not None:
+            self.site_new[self._cur_loc].add(rid)
+        return {rid}
+
+    def _record_field_writes(self, dst, rv):
+        """struct fields that receive untrusted data (type-based heap abstraction)"""
+        sm = self.summaries
+        if sm is None:
+            return
+        fn = self.fn
+
+        def note(key, op):
+            p = op_place(op)
+            if not p:
+                return
+            l = p[0]
+            named = any(_named_field(e) for e in p[1:])
+            kind = self._field_kind(p) if named else None
+            isbuf = (kind == "buf") or (not named and l in self.buf)
+            isscal = (kind == "scalar") or (not named and bool(self.roots.get(l)) and l not in self.clean_bounded)
+            if isbuf and key not in sm.reg_buf:
+                sm.reg_buf.add(key)
+                sm.reg_version += 1
+            elif isscal and not isbuf and key not in sm.reg_scalar:
+                sm.reg_scalar.add(key)
+                sm.reg_version += 1
+        if rv[0] == "agg" and isinstance(rv[1], str) and rv[1].startswith("adt:") and rv[3]:
+            adt = rv[1][4:].rsplit("::", 1)[0]
+            if adt.startswith("std::") or adt.startswith("core::") or adt.startswith("alloc::"):
+                return
+            for name, op in zip(rv[3], rv[2]):
+                note(adt + "::" + name, op)
+        else:
+            flds = [e for e in dst[1:] if _named_field(e)]
+            if flds and rv[0] in ("use", "cast", "bin"):
+                for o in rv_operands(rv):
+                    note(flds[-1][1:], o)
+
+    def _tuple_field_clean(self, rv):
+        """rvalue reads tuple field k of a local whose field k is a trusted position"""
+        if rv[0] != "use":
+            return False
+        p = op_place(rv[1])
+        if not p or len(p) < 2:
+            return False
+        last = p[-1]
+        if not (isinstance(last, str) and re.match(r"^\.\d+$", last)):
+            return False
+        tc = self.tuple_clean.get(p[0])
+        return bool(tc) and int(last[1:]) in tc
+
+    def _tuple_pass(self, dst, rv):
+        """moves of the (wrapped) tuple keep the trusted-field set"""
+        if rv[0] != "use" or len(dst) != 1:
+            return
+        p = op_place(rv[1])
+        if not p:
+            return
+        tc = self.tuple_clean.get(p[0])
+        if not tc:
+            return
+        # only enum payload projections (downcast + variant field), no tuple field selection
+        for e in p[1:]:
+            if isinstance(e, str) and re.match(r"^\.\d+$", e):
+                return
+        if not self.tuple_clean.get(dst[0]):
+            self.tuple_clean[dst[0]] = set(tc)
 
     def _propagate(self):
         fn = self.fn
@@ -238,10 +358,15 @@ class FnTaint:
             changed = False
             rounds += 1
             for loc, st in fn.iter_locs():
+                self._cur_loc = loc
                 if st[0] == "a":
                     dst, rv = st[1], st[2]
                     d = dst[0]
                     k = rv[0]
+                    if self._tuple_field_clean(rv):
+                        continue
+                    self._tuple_pass(dst, rv)
+                    self._record_field_writes(dst, rv)
                     # destination through a pointer: taint what it points to as well
                     targets = [d]
                     if len(dst) > 1 and "*" in dst[1:]:
@@ -258,35 +383,41 @@ class FnTaint:
                     new_roots = set()
                     from_buf = False
                     for p in srcs:
-                        for x in place_locals(p):
-                            new_roots |= self.roots.get(x, set())
+                        if any(_named_field(e) for e in p[1:]):
+                            # a named struct field: its trust is decided per field (registry / seeds),
+                            # not by the object it is read from
+                            fk = self._field_kind(p)
+                            if fk == "buf":
+                                from_buf = True
+                            elif fk == "scalar":
+                                new_roots |= self._field_root(p, st[3])
+                            continue
+                        new_roots |= self.roots.get(p[0], set())
                         if p[0] in self.buf:
                             from_buf = True
-                    # clamps by mask / modulo / shift against an untrusted-free operand
+                    # clamp against a trusted *variable* bound (x % n, x & mask_var): bounded by trusted state
                     if k == "bin" and rv[1] in ("BitAnd", "Rem"):
-                        a, b = rv[2], rv[3]
-                        other_clean = False
-                        for x, y in ((a, b), (b, a)):
-                            if op_const(y) is not None:
-                                other_clean = True
-                            else:
-                                ly = op_local(y)
-                                if ly is not None and not self.roots.get(ly) and ly not in self.buf:
-                                    other_clean = True
-                        if other_clean and rv[1] == "BitAnd":
+                        y = rv[3] if rv[1] == "Rem" else None
+                        cands = [rv[3]] if rv[1] == "Rem" else [rv[2], rv[3]]
+                        hit = False
+                        for y in cands:
+                            ly = op_local(y)
+                            if ly is not None and not self.roots.get(ly) and ly not in self.buf \
+                                    and op_const(y) is None:
+                                hit = True
+                        if hit:
                             for t in targets:
                                 self.clean_bounded.add(t)
                             continue
-                        if rv[1] == "Rem":
-                            y = rv[3]
-                            ly = op_local(y)
-                            if op_const(y) is not None or (ly is not None and not self.roots.get(ly)):
-                                for t in targets:
-                                    self.clean_bounded.add(t)
-                                continue
                     if k == "bin" and rv[1] in CMP_OPS:
                         continue  # booleans are handled as guards, not as tainted data
                     if k == "disc":
+                        continue
+                    if from_buf and any(re.search(r"\(usize, ", fn.ty(p[0])) and ".0" in p[1:] and
+                                        int_width(fn.ty(d)) == 64 for p in srcs):
+                        from_buf = False     # Enumerate counter, not buffer content
+                    if k == "agg" and isinstance(rv[1], str) and rv[1].startswith("adt:") and rv[3] \
+                            and not rv[1].startswith("adt:std::") and not rv[1].startswith("adt:core::"):
                         continue
                     for t in targets:
                         tty = fn.ty(t)
@@ -295,16 +426,22 @@ class FnTaint:
                                 if t not in self.buf:
                                     self.buf.add(t)
                                     changed = True
+                            elif not int_width(tty) and not re.match(r"^(\(|std::option::Option<|&)*[ui](8|16|32|64|size)\b", tty) \
+                                    and tty not in ("bool", "()", "char", "f32", "f64"):
+                                # a struct / option / reference taken out of untrusted content stays untrusted
+                                if t not in self.buf:
+                                    self.buf.add(t)
+                                    changed = True
                             elif has_int(tty) or int_width(tty):
-                                # byte (or integer) loaded from untrusted content
-                                if not any(self.root_desc[r][0].startswith("load@%d" % st[3]) for r in self.roots.get(t, ())):
-                                    if not self.roots.get(t):
-                                        self._new_root(t, "load@%d from %s" % (st[3], fn.local_name(srcs[0][0]) if srcs else "?"),
-                                                       int_width(tty) or 8)
-                                        changed = True
+                                # byte (or integer) loaded from untrusted content: one root per load site
+                                if not self.site_new.get(loc):
+                                    self._new_root(t, "load@%d from %s" % (st[3], fn.local_name(srcs[0][0]) if srcs else "?"),
+                                                   int_width(tty) or 8)
+                                    changed = True
                         if new_roots - self.roots.get(t, set()):
                             self.roots[t] |= new_roots
                             changed = True
+                        self.site_roots[loc] |= new_roots
                 elif st[0] == "call":
                     c = st[1]
                     d = c["d"][0]
@@ -316,6 +453,135 @@ class FnTaint:
         return
 
     # ------------------------------------------------------------------
+    def compute_bits(self):
+        """upper bound (in bits) of every untrusted local, flow-insensitive with widening"""
+        fn = self.fn
+        bits = {}
+        for l, rs in self.roots.items():
+            if rs:
+                tw = int_width(fn.ty(l)) or 64
+                bits[l] = 0
+        for l, rids in self.param_roots.items():
+            bits[l] = max(self.root_desc[r][1] for r in rids)
+        for loc, rids in self.site_new.items():
+            st = fn.stmt_at(loc)
+            d = st[1][0] if st[0] == "a" else (st[1]["d"][0] if st[0] == "call" else None)
+            if d is not None and rids:
+                bits[d] = max(bits.get(d, 0), max(self.root_desc[r][1] for r in rids))
+        rootw = {}
+        def tyw(l):
+            return int_width(fn.ty(l)) or 64
+
+        def opbits(o):
+            c = op_const(o)
+            if c is not None:
+                v = c[0]
+                return max(int(v).bit_length(), 1) if isinstance(v, int) and v >= 0 else 64
+            p = op_place(o)
+            if not p:
+                return 64
+            if len(p) == 1:
+                l = p[0]
+                if self.roots.get(l) and l not in self.clean_bounded:
+                    return bits.get(l, tyw(l))
+                return tyw(l) if not self.roots.get(l) else bits.get(l, tyw(l))
+            return 64
+        # initialise from root sites
+        for loc, rids in self.site_roots.items():
+            pass
+        changed = True
+        rounds = 0
+        while changed and rounds < 12:
+            changed = False
+            rounds += 1
+            for loc, st in fn.iter_locs():
+                if st[0] == "a" and len(st[1]) == 1:
+                    d = st[1][0]
+                    if d not in bits:
+                        continue
+                    rv = st[2]
+                    k = rv[0]
+                    tw = tyw(d)
+                    nb = None
+                    if k == "use":
+                        p = op_place(rv[1])
+                        if p and len(p) > 1:
+                            nb = tw      # load through a projection: width of the loaded type
+                        else:
+                            nb = min(opbits(rv[1]), tw)
+                    elif k == "cast":
+                        nb = min(opbits(rv[2]), tw)
+                    elif k == "bin":
+                        a, b = opbits(rv[2]), opbits(rv[3])
+                        op = rv[1]
+                        cb = op_const(rv[3])
+                        if op in ("Add", "AddWithOverflow", "AddUnchecked", "Sub", "SubWithOverflow", "SubUnchecked"):
+                            nb = max(a, b) + 1
+                        elif op in ("Mul", "MulWithOverflow", "MulUnchecked"):
+                            nb = a + b
+                        elif op in ("BitAnd",):
+                            nb = min(a, b)
+                        elif op in ("BitOr", "BitXor"):
+                            nb = max(a, b)
+                        elif op in ("Shl", "ShlUnchecked"):
+                            nb = a + (cb[0] if cb and isinstance(cb[0], int) else 64)
+                        elif op in ("Shr", "ShrUnchecked"):
+                            nb = max(a - (cb[0] if cb and isinstance(cb[0], int) else 0), 1)
+                        elif op in ("Rem",):
+                            nb = min(a, b)
+                        elif op in ("Div",):
+                            nb = a
+                        else:
+                            nb = tw
+                        nb = min(nb, tw)
+                    elif k == "agg":
+                        nb = max([opbits(o) for o in rv[2]] or [tw])
+                    else:
+                        nb = tw
+                    if rounds > 6:
+                        nb = tw if nb > bits[d] else nb   # widen
+                    if nb > bits[d]:
+                        bits[d] = nb
+                        changed = True
+                elif st[0] == "a" and len(st[1]) > 1:
+                    d = st[1][0]
+                    if d in bits and bits[d] < tyw(d):
+                        bits[d] = tyw(d)
+                        changed = True
+                elif st[0] == "call":
+                    c = st[1]
+                    d = c["d"][0]
+                    if d not in bits:
+                        continue
+                    tw = tyw(d)
+                    m = re.search(r"<impl ([ui](?:8|16|32|64|128|size))>::from_", c["f"])
+                    nb = INT_TYPES[m.group(1)] if m else tw
+                    last = c["f"].rsplit("::", 1)[-1]
+                    if last in ("min",) and len(c["a"]) == 2:
+                        nb = min(opbits(c["a"][0]), opbits(c["a"][1]))
+                    elif last in ("clone", "from", "into", "try_from", "try_into", "unwrap", "expect", "branch",
+                                  "copied", "cloned", "unwrap_or", "unwrap_or_default", "ok", "map_err",
+                                  "from_residual", "saturating_sub", "wrapping_sub", "abs_diff") and c["a"]:
+                        nb = min(opbits(c["a"][0]), tw if int_width(fn.ty(d)) else 64)
+                    if nb > bits[d]:
+                        bits[d] = nb
+                        changed = True
+        self.bits = bits
+        return bits
+
+    def bits_of(self, op):
+        if not hasattr(self, "bits"):
+            self.compute_bits()
+        c = op_const(op)
+        if c is not None:
+            return 0
+        p = op_place(op)
+        if not p:
+            return 64
+        if len(p) == 1:
+            return self.bits.get(p[0], int_width(self.fn.ty(p[0])) or 64)
+        return 64
+
     def tainted(self, l):
         return bool(self.roots.get(l)) and l not in self.clean_bounded
 
@@ -329,8 +595,125 @@ class FnTaint:
                 r |= self.roots.get(x, set())
         return r
 
+    def roots_at(self, loc, op, depth=0):
+        """roots of an operand, following only the definitions that reach loc"""
+        p = op_place(op)
+        if not p:
+            return set()
+        return self.local_roots_at(loc, p[0], depth)
+
+    def local_roots_at(self, loc, x, depth=0):
+        fn = self.fn
+        ds = fn.defs(x)
+        r = set()
+        if 1 <= x <= fn.nargs:
+            r |= self.param_roots.get(x, set())
+        if not ds:
+            return r | self.roots.get(x, set())
+        if depth > 40:
+            return r | self.roots.get(x, set())
+        rd = ds if len(ds) == 1 else fn.reaching_defs(loc, x)
+        for d in rd:
+            r |= self.def_roots(x, d, depth + 1)
+        return r
+
+    def def_roots(self, x, d, depth):
+        fn = self.fn
+        loc, kind, pl = d
+        key = (loc, kind, x)
+        if key in self._dmemo:
+            return self._dmemo[key]
+        if key in self._dprog:
+            return set(self.roots.get(x, set()))     # loop-carried: flow-insensitive fallback
+        self._dprog.add(key)
+        r = set(self.site_new.get(loc, ()))
+        try:
+            if kind == "assign":
+                dst, rv = pl[1], pl[2]
+                k = rv[0]
+                if self._tuple_field_clean(rv):
+                    r = set()
+                elif (k == "bin" and rv[1] in CMP_OPS) or k == "disc" or (k == "un" and rv[1] == "PtrMetadata"):
+                    r = set()
+                elif k == "bin" and rv[1] in ("BitAnd", "Rem") and self._trusted_clamp(loc, rv, depth):
+                    r = set()
+                else:
+                    for o in rv_operands(rv):
+                        p = op_place(o)
+                        if p:
+                            if any(_named_field(e) for e in p[1:]):
+                                continue      # named field: covered by site_new (registry / seeds)
+                            r |= self.local_roots_at(loc, p[0], depth)
+                    if len(dst) > 1:
+                        r |= self.roots.get(x, set())
+            elif kind == "call":
+                c = pl
+                last = c["f"].rsplit("::", 1)[-1]
+                args = [op_local(a) for a in c["a"]]
+                any_buf = any(a in self.buf for a in args if a is not None)
+                if last in LEN_CALLS:
+                    r = set()
+                elif last in CLAMP_CALLS and self._clamp_clean(loc, c, depth):
+                    r = set()
+                elif last in ("saturating_sub", "checked_sub") and len(c["a"]) == 2 and \
+                        op_local(c["a"][0]) is not None and not self.local_roots_at(loc, op_local(c["a"][0]), depth):
+                    r = set()
+                else:
+                    dep = None
+                    if c.get("loc") and self.summaries is not None:
+                        dep = self.summaries.ret_depends(c["f"])
+                    for i, a in enumerate(args):
+                        if a is None or (dep is not None and (i + 1) not in dep):
+                            continue
+                        r |= self.local_roots_at(loc, a, depth)
+                    if c["d"][0] != x:
+                        # x was written through a &mut argument
+                        r |= self.roots.get(x, set())
+            else:
+                r |= self.roots.get(x, set())
+        finally:
+            self._dprog.discard(key)
+        self._dmemo[key] = r
+        return r
+
+    def _trusted_clamp(self, loc, rv, depth):
+        cands = [rv[3]] if rv[1] == "Rem" else [rv[2], rv[3]]
+        for y in cands:
+            ly = op_local(y)
+            if ly is not None and op_const(y) is None and ly not in self.buf \
+                    and not self.local_roots_at(loc, ly, depth):
+                return True
+        return False
+
+    def _clamp_clean(self, loc, c, depth):
+        for a in c["a"]:
+            if op_const(a) is not None:
+                return True
+            l = op_local(a)
+            if l is not None and l not in self.buf and not self.local_roots_at(loc, l, depth):
+                return True
+        return False
+
     def width_of(self, roots):
         return max((self.root_desc[r][1] for r in roots), default=0)
+
+
+def _op_ty(fn, op):
+    c = op_const(op)
+    if c is not None:
+        return c[1]
+    p = op_place(op)
+    if p and len(p) == 1:
+        return fn.ty(p[0])
+    return "usize" if p else None
+
+
+def scalar_like(ty):
+    """integers and small value aggregates of integers (not structs / references to structs)"""
+    t = ty.replace("&mut ", "").replace("&", "").strip()
+    if int_width(t):
+        return True
+    return bool(re.match(r"^(std::option::Option<|std::ops::Range(Inclusive|From|To)?<|\()\s*\(?([ui](8|16|32|64|size)[,\s)>]*)+$", t))
 
 
 def has_int_only(ty):
@@ -339,16 +722,22 @@ def has_int_only(ty):
 
 # ---------------------------------------------------------------------- guards
 class Guards:
-    """deciding comparisons of a function"""
+    """deciding comparisons of a function.
+
+    item = (block, roots, large_succs, desc): `roots` are the untrusted roots of the compared
+    value; `large_succs` are the successors taken when the untrusted side is LARGE (fails an
+    upper bound) - None when the direction is unknown (checking helper), in which case any
+    deciding successor is accepted."""
 
     def __init__(self, fn, ft):
         self.fn = fn
         self.ft = ft
-        self.items = []   # (block, roots_of_compared_values, other_side_clean, description, line)
+        self.items = []
         self._collect()
 
-    def _cmp_sides(self, l, depth=0):
-        """for a boolean/discriminant local: list of (side_a_roots, side_b_roots, clean_a, clean_b, desc)"""
+    # a boolean local is described by a list of atoms:
+    #   (roots_untrusted_side, op_as_seen_from_untrusted_side or None, negated, desc)
+    def _atoms(self, l, neg=False, depth=0):
         fn, ft = self.fn, self.ft
         out = []
         if depth > 6:
@@ -357,75 +746,101 @@ class Guards:
             if kind == "assign" and len(pl[1]) == 1:
                 rv = pl[2]
                 if rv[0] == "bin" and rv[1] in CMP_OPS:
-                    ra, rb = ft.op_roots(rv[2]), ft.op_roots(rv[3])
-                    out.append((ra, rb, self._clean(rv[2]), self._clean(rv[3]), "%s@%s" % (rv[1], pl[3])))
+                    sat = self._satsub_atom(loc, rv, neg, pl[3])
+                    if sat:
+                        out += sat
+                        continue
+                    ra, rb = ft.roots_at(loc, rv[2]), ft.roots_at(loc, rv[3])
+                    ca = op_const(rv[2]) is not None or not ra
+                    cb = op_const(rv[3]) is not None or not rb
+                    if ra and cb:
+                        out.append((ra, rv[1], neg, "%s@%s" % (rv[1], pl[3]), op_local(rv[2])))
+                    if rb and ca:
+                        flip = {"Lt": "Gt", "Le": "Ge", "Gt": "Lt", "Ge": "Le", "Eq": "Eq", "Ne": "Ne"}[rv[1]]
+                        out.append((rb, flip, neg, "%s@%s" % (rv[1], pl[3]), op_local(rv[3])))
                 elif rv[0] == "use" and op_place(rv[1]) and len(op_place(rv[1])) == 1:
-                    out += self._cmp_sides(op_local(rv[1]), depth + 1)
+                    out += self._atoms(op_local(rv[1]), neg, depth + 1)
                 elif rv[0] == "un" and rv[1] == "Not":
                     ll = op_local(rv[2])
                     if ll is not None:
-                        out += self._cmp_sides(ll, depth + 1)
-                elif rv[0] == "bin" and rv[1] in ("BitAnd", "BitOr"):
-                    for o in (rv[2], rv[3]):
-                        ll = op_local(o)
-                        if ll is not None:
-                            out += self._cmp_sides(ll, depth + 1)
+                        out += self._atoms(ll, not neg, depth + 1)
                 elif rv[0] == "disc":
                     base = rv[1][0]
-                    # discriminant of an Option/Result produced by a checking call
                     for loc2, kind2, pl2 in fn.defs(base):
                         if kind2 == "call":
-                            out += self._call_sides(pl2)
+                            out += self._call_atoms(pl2, loc2)
                         elif kind2 == "assign" and pl2[2][0] == "use" and op_local(pl2[2][1]) is not None:
                             for loc3, kind3, pl3 in fn.defs(op_local(pl2[2][1])):
                                 if kind3 == "call":
-                                    out += self._call_sides(pl3)
+                                    out += self._call_atoms(pl3, loc3)
             elif kind == "call":
-                out += self._call_sides(pl)
+                out += self._call_atoms(pl, loc, neg)
         return out
 
-    def _call_sides(self, c):
+    def _satsub_atom(self, loc, rv, neg, line):
+        """`trusted.saturating_sub(x) > 0` (or != 0 / == 0) is the comparison `x < trusted`"""
+        fn, ft = self.fn, self.ft
+        for y, z in ((rv[2], rv[3]), (rv[3], rv[2])):
+            cz = op_const(z)
+            ly = op_local(y)
+            if cz is None or cz[0] != 0 or ly is None:
+                continue
+            for _ in range(4):   # look through plain copies
+                dsy = fn.defs(ly)
+                if len(dsy) == 1 and dsy[0][1] == "assign" and dsy[0][2][2][0] == "use" \
+                        and op_place(dsy[0][2][2][1]) and len(op_place(dsy[0][2][2][1])) == 1:
+                    ly = op_local(dsy[0][2][2][1])
+                else:
+                    break
+            for loc2, kind2, pl2 in fn.defs(ly):
+                if kind2 == "call" and pl2["f"].endswith("::saturating_sub") and len(pl2["a"]) == 2:
+                    ra = ft.roots_at(loc2, pl2["a"][0])
+                    rb = ft.roots_at(loc2, pl2["a"][1])
+                    if rb and not ra:
+                        op = rv[1]
+                        if y is rv[3]:
+                            op = {"Lt": "Gt", "Le": "Ge", "Gt": "Lt", "Ge": "Le", "Eq": "Eq", "Ne": "Ne"}[op]
+                        # y > 0 / y != 0 / y >= 1  => x < trusted ; y == 0 / y <= 0 => x >= trusted
+                        if op in ("Gt", "Ne", "Ge"):
+                            return [(rb, "Lt", neg, "saturating_sub>0@%s" % line, op_local(pl2["a"][1]))]
+                        if op in ("Eq", "Le", "Lt"):
+                            return [(rb, "Ge", neg, "saturating_sub==0@%s" % line, op_local(pl2["a"][1]))]
+        return None
+
+    def _call_atoms(self, c, loc, neg=False, depth=0):
         ft = self.ft
         f = c["f"]
         last = f.rsplit("::", 1)[-1]
-        rs = [ft.op_roots(a) for a in c["a"]]
+        rs = [ft.roots_at(loc, a) for a in c["a"]]
         allr = set().union(*rs) if rs else set()
+        wrappers = ("branch", "ok_or", "ok_or_else", "map_err", "ok", "is_some", "is_none", "is_ok", "is_err",
+                    "as_ref", "copied", "cloned", "map", "and_then")
+        if last in ("lt", "le", "gt", "ge", "eq", "ne") and len(c["a"]) == 2:
+            op = {"lt": "Lt", "le": "Le", "gt": "Gt", "ge": "Ge", "eq": "Eq", "ne": "Ne"}[last]
+            out = []
+            if rs[0] and (op_const(c["a"][1]) is not None or not rs[1]):
+                out.append((rs[0], op, neg, "%s()@%s" % (last, c["ln"]), op_local(c["a"][0])))
+            if rs[1] and (op_const(c["a"][0]) is not None or not rs[0]):
+                flip = {"Lt": "Gt", "Le": "Ge", "Gt": "Lt", "Ge": "Le", "Eq": "Eq", "Ne": "Ne"}[op]
+                out.append((rs[1], flip, neg, "%s()@%s" % (last, c["ln"]), op_local(c["a"][1])))
+            return out
+        if last in wrappers and c["a"] and depth < 6:
+            l = op_local(c["a"][0])
+            out = []
+            if l is not None:
+                for loc2, kind2, pl2 in self.fn.defs(l):
+                    if kind2 == "call":
+                        out += self._call_atoms(pl2, loc2, neg, depth + 1)
+            if out or not allr:
+                return out
         if not allr:
-            # branch()/map_err() wrappers around a checking call: look through first arg
-            if last in ("branch", "ok_or", "ok_or_else", "map_err", "ok", "is_some", "is_none", "is_ok", "is_err",
-                        "as_ref", "copied", "cloned") and c["a"]:
-                l = op_local(c["a"][0])
-                if l is not None:
-                    out = []
-                    for loc, kind, pl in self.fn.defs(l):
-                        if kind == "call":
-                            out += self._call_sides(pl)
-                    return out
             return []
         if CHECK_CALLS.search(f) or last.startswith("is_") or last.startswith("has_") or last.startswith("can_") \
                 or last in ("contains", "validate", "check_bounds", "ensure", "verify"):
-            # a checking helper: the untrusted value is compared inside (against the receiver's state)
-            return [(allr, set(), False, True, "%s()@%s" % (last, c["ln"]))]
-        if last in ("branch", "ok_or", "ok_or_else", "map_err", "ok", "is_some", "is_none", "is_ok", "is_err",
-                    "as_ref", "copied", "cloned", "eq", "ne", "lt", "le", "gt", "ge", "cmp", "partial_cmp"):
-            if last in ("eq", "ne", "lt", "le", "gt", "ge", "cmp", "partial_cmp") and len(c["a"]) == 2:
-                return [(rs[0], rs[1], self._clean(c["a"][0]), self._clean(c["a"][1]), "%s()@%s" % (last, c["ln"]))]
-            l = op_local(c["a"][0]) if c["a"] else None
-            out = []
-            if l is not None:
-                for loc, kind, pl in self.fn.defs(l):
-                    if kind == "call":
-                        out += self._call_sides(pl)
-            return out
-        if c.get("loc") and self.ft.summaries is not None and self.ft.summaries.is_validator(f):
-            return [(allr, set(), False, True, "validator %s@%s" % (last, c["ln"]))]
+            return [(allr, None, neg, "%s()@%s" % (last, c["ln"]), None)]
+        if c.get("loc") and ft.summaries is not None and ft.summaries.is_validator(f):
+            return [(allr, None, neg, "validator %s@%s" % (last, c["ln"]), None)]
         return []
-
-    def _clean(self, op):
-        """operand is not (purely) untrusted: constant, or has no roots"""
-        if op_const(op) is not None:
-            return True
-        return not self.ft.op_roots(op)
 
     def _collect(self):
         fn = self.fn
@@ -436,24 +851,56 @@ class Guards:
             l = op_local(t[1])
             if l is None:
                 continue
-            for ra, rb, ca, cb, desc in self._cmp_sides(l):
-                if ra and cb:
-                    self.items.append((b, ra, desc))
-                if rb and ca:
-                    self.items.append((b, rb, desc))
-        # asserts are guards too (they refuse by panicking): only used where a panic is an accepted refusal
+            atoms = self._atoms(l)
+            if not atoms:
+                continue
+            ev = fn.switch_edge_values(b)
+            explicit = [int(v) for v, _ in t[2]]
+            true_t = false_t = None
+            for tgt, vals in ev.items():
+                if 1 in vals or ("otherwise" in vals and 0 in explicit and 1 not in explicit):
+                    true_t = tgt
+                if 0 in vals or ("otherwise" in vals and 1 in explicit and 0 not in explicit):
+                    false_t = tgt
+            for roots, op, neg, desc, cl in atoms:
+                large = None
+                if op is not None and true_t is not None and false_t is not None and true_t != false_t:
+                    # successor taken when the untrusted value is large / different from the bound
+                    tt, ff = (false_t, true_t) if neg else (true_t, false_t)
+                    if op in ("Lt", "Le", "Eq"):
+                        large = [ff]
+                    else:
+                        large = [tt]
+                self.items.append((b, roots, large, desc, op, cl))
 
-    def protecting(self, sink_block, roots, sink_idx=None):
-        """guards that dominate the sink, decide it, and share a root with the operand"""
+    def protecting(self, sink_block, roots, sink_local=None):
+        """guards that dominate the sink, share a root with the operand and whose 'large' edge
+        (or, for checking helpers, some edge) cannot reach the sink"""
         fn = self.fn
         out = []
-        for b, groots, desc in self.items:
+        anc = None
+        for b, groots, large, desc, op, cl in self.items:
             if not (groots & roots):
                 continue
             if b == sink_block or not fn.dominates(b, sink_block):
                 continue
-            decides = any(sink_block not in fn.reachable_from([s], avoid=[b]) for s in fn.succ(b))
-            if decides:
+            if op in ("Eq", "Ne"):
+                # an (in)equality only bounds values that are computed from the compared one
+                if sink_local is None or cl is None:
+                    continue
+                if anc is None:
+                    anc = fn.backslice([sink_local])[0]
+                if cl not in anc:
+                    continue
+            elif op is not None:
+                if not (roots <= groots):
+                    continue
+            succs = large if large is not None else fn.succ(b)
+            if large is not None:
+                ok = all(sink_block not in fn.reachable_from([s], avoid=[b]) for s in succs)
+            else:
+                ok = any(sink_block not in fn.reachable_from([s], avoid=[b]) for s in succs)
+            if ok:
                 out.append((b, desc))
         return out
 
@@ -502,7 +949,7 @@ def check_sinks(ctx, fn, ft, rule_prefix, kinds=("alloc", "index", "slice", "uns
     for kind, b, op, desc, line, lenop in sink_sites(fn):
         if kind not in kinds:
             continue
-        roots = ft.op_roots(op)
+        roots = ft.roots_at((b, len(fn.stmts(b))), op)
         if not roots:
             continue
         n += 1
@@ -510,7 +957,7 @@ def check_sinks(ctx, fn, ft, rule_prefix, kinds=("alloc", "index", "slice", "uns
             g = Guards(fn, ft)
         rule = rule_prefix + {"alloc": "R-ALLOC", "index": "R-GUARD.index", "slice": "R-GUARD.slice",
                               "unsafe": "R-GUARD.unsafe"}[kind]
-        width = ft.width_of(roots)
+        width = min(ft.width_of(roots), ft.bits_of(op)) if op_place(op) and len(op_place(op)) == 1 else ft.width_of(roots)
         why = None
         if kind == "alloc" and width <= 16:
             why = "source width %d bits" % width
@@ -518,7 +965,7 @@ def check_sinks(ctx, fn, ft, rule_prefix, kinds=("alloc", "index", "slice", "uns
             c = op_const(lenop)
             if c is not None and isinstance(c[0], int) and width < 64 and (1 << width) <= c[0]:
                 why = "index type-bounded (%d bits) for array of %d" % (width, c[0])
-        prot = g.protecting(b, roots) if why is None else []
+        prot = g.protecting(b, roots, op_local(op)) if why is None else []
         ok = bool(why) or bool(prot)
         l = op_local(op)
         nm = fn.local_name(l) if l is not None else "?"
@@ -531,7 +978,8 @@ def check_sinks(ctx, fn, ft, rule_prefix, kinds=("alloc", "index", "slice", "uns
             what = {"alloc": "sizes an allocation", "index": "indexes (panics when out of range)",
                     "slice": "bounds a slice operation (panics when out of range)",
                     "unsafe": "feeds an unchecked memory access"}[kind]
-            ctx.violation(rule, fn.id, "%s(%s)" % (desc, nm if not nm.startswith("_") else "tmp"),
+            kinds_ = sorted({re.sub(r"( line \d+|@\d+)", "", ft.root_desc[r][0]) for r in roots})
+            ctx.violation(rule, fn.id, "%s(%s) <- %s" % (desc, nm if not nm.startswith("_") else "tmp", kinds_[0]),
                           "untrusted value %s (from %s) %s with no dominating check against a trusted bound"
                           % (nm, srcs, what), fn.file, line)
     return n
@@ -543,6 +991,10 @@ class Summaries:
         self.fx = fx
         self._dep = {}
         self._val = {}
+        self._ctf = {}
+        self.reg_buf = set()      # 'path::Adt::field' whose content is untrusted bytes / parsed data
+        self.reg_scalar = set()   # 'path::Adt::field' holding an untrusted integer
+        self.reg_version = 0
 
     def fn(self, fid):
         rec = self.fx.raw(fid)
@@ -559,6 +1011,49 @@ class Summaries:
         dep = {l for l in locs if 1 <= l <= fn.nargs}
         self._dep[fid] = dep
         return dep
+
+    def ret_info(self, fid, buf_params):
+        """analyse callee with the given BUF parameters: is its return value untrusted, and which
+        tuple fields of the (Ok-wrapped) result are trusted (no untrusted root, or validated by a
+        dominating guard inside the callee: cursor positions / consumed-byte counts)"""
+        key = (fid, tuple(sorted(buf_params)))
+        if key in self._ctf:
+            return self._ctf[key]
+        self._ctf[key] = {"tainted": True, "clean_fields": set()}      # recursion: conservative
+        fn = self.fn(fid)
+        if fn is None:
+            return self._ctf[key]
+        ft = FnTaint(fn, buf_params, (), (), (), self, None)
+        g = None
+        # does anything untrusted reach the return value?
+        rr = ft.local_roots_at((max(fn.exits() or [0]), 0), 0) if fn.exits() else ft.roots.get(0, set())
+        rr = rr | ft.roots.get(0, set())
+        tainted = bool(rr)
+        clean = None
+        ntuples = 0
+        if "(" in fn.ty(0):
+            for loc, st in fn.iter_locs():
+                if st[0] == "a" and st[2][0] == "agg" and st[2][1] == "tuple" and len(st[1]) == 1:
+                    fw = fn.forward_locals([st[1][0]])
+                    if 0 not in fw:
+                        continue
+                    ntuples += 1
+                    cf = set()
+                    for i, o in enumerate(st[2][2]):
+                        if int_width(_op_ty(fn, o) or "") is None:
+                            continue
+                        r = ft.roots_at(loc, o) if op_const(o) is None else set()
+                        if not r:
+                            cf.add(i)
+                        else:
+                            if g is None:
+                                g = Guards(fn, ft)
+                            if g.protecting(loc[0], r, op_local(o)):
+                                cf.add(i)
+                    clean = cf if clean is None else (clean & cf)
+        res = {"tainted": tainted, "clean_fields": clean if (clean and ntuples) else set()}
+        self._ctf[key] = res
+        return res
 
     def is_validator(self, fid):
         if fid in self._val:
@@ -621,6 +1116,18 @@ class Closure:
     queue = None
 
     def run(self):
+        for _ in range(6):
+            v0 = self.summ.reg_version
+            self._run_once()
+            if self.summ.reg_version == v0:
+                break
+            # registry grew: summaries and results computed before may be stale
+            self.summ._ctf.clear()
+            for fid in list(self.state):
+                self.queue.append(fid)
+        return self.results
+
+    def _run_once(self):
         fx = self.fx
         n = 0
         while self.queue and n < self.max_fns * 3:
@@ -635,6 +1142,7 @@ class Closure:
             bufs, scal = self.state[fid]
             ft = FnTaint(fn, bufs, scal, self.buf_fields, self.scalar_fields, self.summ, self.extra_sources)
             self.results[fid] = (fn, ft)
+            g = None
             for b, c in fn.calls():
                 callee = c["f"]
                 if not c["loc"] or not fx.has(callee):
@@ -646,7 +1154,14 @@ class Closure:
                         continue
                     if l in ft.buf:
                         cb.add(i + 1)
-                    elif ft.tainted(l):
+                    elif ft.tainted(l) and scalar_like(fn.ty(l)):
+                        r = ft.roots_at((b, len(fn.stmts(b))), a)
+                        if not r:
+                            continue
+                        if g is None:
+                            g = Guards(fn, ft)
+                        if g.protecting(b, r, l):
+                            continue     # validated by the caller before the call
                         cs.add(i + 1)
                 if cb or cs:
                     self._merge(callee, cb, cs)
@@ -674,3 +1189,73 @@ def new_closure(*a, **k):
     c = Closure(*a, **k)
     c.queue = deque()
     return c
+
+
+# ---------------------------------------------------------------------- panics on untrusted paths
+INFALLIBLE_SRC = re.compile(r"::try_into$|::try_from$")
+
+
+def check_panics(ctx, fn, ft, rule="R-PANIC", report=True):
+    """(a) unwrap/expect of an Option/Result whose value derives from untrusted scalars or from a
+    fallible operation on untrusted bytes; (b) explicit panics in blocks that a branch on untrusted
+    data decides. Accepted: try_into().unwrap() of a slice whose range has constant length."""
+    n = 0
+    g = None
+    for b, c in fn.calls():
+        f = c["f"]
+        if UNWRAP_RE.search(f) and c["a"] and not c["x"]:
+            l = op_local(c["a"][0])
+            if l is None:
+                continue
+            loc = (b, len(fn.stmts(b)))
+            roots = ft.local_roots_at(loc, l)
+            from_buf = l in ft.buf
+            if not roots and not from_buf:
+                continue
+            # what produced the Option/Result?
+            prod = None
+            for d in fn.defs(l):
+                if d[1] == "call":
+                    prod = d[2]["f"]
+            if prod and INFALLIBLE_SRC.search(prod) and from_buf and not roots:
+                # slice -> array conversion: fails only on a length mismatch; accept when the slice was
+                # cut with a constant-length range (checked by the slice sink rule) - shape check only
+                ctx.obligation(rule, fn.id, "try_into.unwrap", True, nontrivial=False)
+                continue
+            if not roots:
+                continue
+            if g is None:
+                g = Guards(fn, ft)
+            prot = g.protecting(b, roots, l)
+            ok = bool(prot)
+            n += 1
+            ctx.obligation(rule, fn.id, "unwrap(%s)" % (prod or "?").rsplit("::", 1)[-1], ok,
+                           sample={"fn": fn.id, "unwrap_of": prod, "line": c["ln"],
+                                   "untrusted_sources": [ft.root_desc[r][0] for r in sorted(roots)][:3],
+                                   "discharged_by": [d for _, d in prot][:2]})
+            if not ok and report:
+                ctx.violation(rule, fn.id, "unwrap of %s" % (prod or "value").rsplit("::", 1)[-1],
+                              "unwrap/expect on a value computed from untrusted input (%s) with no dominating check: "
+                              "malformed bytes panic instead of returning Err"
+                              % ", ".join(ft.root_desc[r][0] for r in sorted(roots)[:2]), fn.file, c["ln"])
+        elif PANIC_RE.search(f):
+            # explicit panic: is the block control-dependent on an untrusted branch?
+            if g is None:
+                g = Guards(fn, ft)
+            deciders = []
+            for gb, groots, large, desc, op, cl in g.items:
+                if fn.dominates(gb, b) and gb != b:
+                    # the panic block is reached only through one side of the guard
+                    sides = [s for s in fn.succ(gb) if b in fn.reachable_from([s], avoid=[gb])]
+                    if len(sides) < len(fn.succ(gb)):
+                        deciders.append(desc)
+            if not deciders:
+                continue
+            n += 1
+            ctx.obligation(rule, fn.id, "panic", False,
+                           sample={"fn": fn.id, "panic": f.rsplit("::", 1)[-1], "line": c["ln"], "decided_by": deciders[:3]})
+            if report:
+                ctx.violation(rule, fn.id, "explicit panic after %s" % deciders[0].split("@")[0],
+                              "a branch on untrusted input (%s) leads to %s: malformed bytes panic instead of "
+                              "returning Err" % (deciders[0], f.rsplit("::", 1)[-1]), fn.file, c["ln"])
+    return n
